@@ -18,3 +18,10 @@ package geomhelp
 //@   ensures[C05,C08,C03] !isNil(result)
 //@   ensures[C05,C08,C03] forall(k Int, hasKey(result, k) == hasKey(floatersPerKey, k))
 //@   ensures[C05,C08,C03] forall(k Int, hasKey(floatersPerKey, k) ==> len(result[k]) == len(floatersPerKey[k]))
+
+// C06: the two geometric helpers of the hole matching are total (float64 as real numbers; a float division by zero
+// does not panic in Go and the quotient is then an arbitrary value here). Safety and termination only.
+//@ func Shoelace
+//@   loop p1 as it
+//@     invariant 0 - 1 <= it && len(pts) >= 1
+//@ func RayIntersect
